@@ -11,7 +11,7 @@ Nothing is ever applied to /repo itself.  Results are appended to seeded/RESULTS
 import json, os, re, subprocess, sys, time
 
 VERIF = os.path.dirname(os.path.dirname(os.path.abspath(__file__)))
-SCRATCH = '/tmp/mutrepo'
+SCRATCH = os.environ.get('SEED_SCRATCH', '/tmp/mutrepo')      # one detection at a time per scratch tree
 
 
 def sh(cmd, cwd=None, timeout=3600, env=None):
@@ -41,8 +41,8 @@ def detect(seed_dir, props=None, tier='quick'):
         print(json.dumps(res)); return res
     results = {}
     for pid in (props or [prop]):
-        os.makedirs('/tmp/seed/evidence', exist_ok=True)
-        env = dict(os.environ, VERIF_REPO=SCRATCH, VERIF_SEED=os.environ.get('VERIF_SEED', '1'), VERIF_EVIDENCE_DIR='/tmp/seed/evidence')
+        os.makedirs('/tmp/seed/evidence' + os.path.basename(SCRATCH), exist_ok=True)
+        env = dict(os.environ, VERIF_REPO=SCRATCH, VERIF_SEED=os.environ.get('VERIF_SEED', '1'), VERIF_EVIDENCE_DIR='/tmp/seed/evidence' + os.path.basename(SCRATCH))
         t0 = time.time()
         rc, out = sh(f'python3 check.py {pid} --tier {tier}', cwd=VERIF, env=env, timeout=3000)
         viol = [l for l in out.split('\n') if l.startswith('VIOLATION')]
